@@ -18,7 +18,7 @@ functional classes / proximal factories and from text-book convex analysis:
   written without any knowledge of a proximal formula, and tangent directions
   for domains with empty interior.
 * Membership in a constraint set is decided on the constraint residual with a
-  rounding tolerance ``16 eps n scale`` (`IND_K`), never on a literal
+  rounding tolerance ``64 eps n scale`` (`IND_K`), never on a literal
   comparison, so that points produced on the boundary count as feasible.
 
 Derived nodes (`RTranslate`, `RArgScale`, `RLeftScale`, `RQuadPert`,
@@ -33,7 +33,7 @@ import numpy as np
 
 LD = np.longdouble
 EPS = float(np.finfo(float).eps)
-IND_K = 16.0
+IND_K = 64.0
 INF = float('inf')
 
 
